@@ -19,8 +19,10 @@ const verbose = false
 const verboseGeoJSON = false
 
 func sightline(context *api.Context, from b6.Geometry, radius float64) (b6.Area, error) {
-	if math.IsNaN(radius) || math.IsInf(radius, 0) || radius <= 0 {
-		return nil, fmt.Errorf("expected a radius greater than 0, found %f", radius)
+	// The boundary is a loop of 128 vertices, which merge below a radius
+	// of a few millimeters
+	if math.IsNaN(radius) || math.IsInf(radius, 0) || radius < 0.01 {
+		return nil, fmt.Errorf("expected a radius of at least 1cm, found %f", radius)
 	} else if from == nil {
 		return nil, fmt.Errorf("expected a geometry, found nothing")
 	}
